@@ -153,7 +153,8 @@ pub fn rust_globals(raw: &[String]) -> Option<Vec<(String, String)>> {
 pub fn run_library(c: &CaseIn, globals: &Option<Vec<(String, String)>>) -> LibRes {
     let language: tree_sitter::Language = tree_sitter_python::LANGUAGE.into();
     let tree = parse_python(&c.src);
-    let parse_errors = ParseError::all(&tree).len();
+    // whether the source has syntax errors is tree-sitter's verdict (independent of the library's own error walk)
+    let parse_errors = ParseError::all(&tree).len().max(if tree.root_node().has_error() { 1 } else { 0 });
     let loaded = std::panic::catch_unwind(|| File::from_str(language.clone(), &c.dsl));
     let file = match loaded {
         Err(_) => return LibRes { load_ok: false, load_panicked: true, parse_errors, strict: ExecRes::Err, lazy: ExecRes::Err },
@@ -318,6 +319,9 @@ pub const SOURCES_BAD: &[&str] = &[
     "f(1 2)\ny = g(3)\n",
     "class :\n    pass\ny = 3\n",
     "x = 1 2\ny = 3 4\nz = 5 6\nu = 7 8\nv = 9 0\nw = 1 2\nt = 3 4\n",
+    // the only syntax errors are MISSING anonymous tokens (no ERROR node)
+    "def f(:\n    pass\n",
+    "def f(a,:\n    pass\n",
 ];
 
 struct Prog { header: String, stanzas: Vec<String>, required: Vec<String>, optional: Vec<String>, kind: String }
@@ -443,7 +447,7 @@ pub fn gen(rng: &mut Rng, n: usize) -> Vec<Case> {
         let prog = gen_prog(rng);
         let mut tags = vec![prog.kind.clone()];
         let bad_src = rng.chance(25);
-        let src = if bad_src { rng.pick(SOURCES_BAD).to_string() } else { rng.pick(SOURCES_OK).to_string() };
+        let src = if bad_src { if rng.chance(40) { SOURCES_BAD[SOURCES_BAD.len() - 1 - rng.below(2)].to_string() } else { rng.pick(SOURCES_BAD).to_string() } } else { rng.pick(SOURCES_OK).to_string() };
         tags.push(if bad_src { "source:syntax-errors".into() } else { "source:ok".into() });
         // the five switches are enumerated systematically (i mod 32); --output without --json is a clap
         // usage error whatever the rest, so two thirds of those slots get --json as well
